@@ -42,6 +42,7 @@ type World struct {
 
 	ImmutableViolations []string
 	indexByContainer    bool
+	constGlobals        map[*ssa.Global]*ssa.Const
 }
 
 func repoDir() string {
@@ -75,7 +76,7 @@ func LoadWorld() (*World, error) {
 		w.Fset = pkgs[0].Fset
 	}
 	packages.Visit(pkgs, nil, func(p *packages.Package) { w.PkgByID[p.PkgPath] = p })
-	prog, _ := ssautil.AllPackages(pkgs, ssa.InstantiateGenerics)
+	prog, _ := ssautil.AllPackages(pkgs, ssa.InstantiateGenerics|ssa.GlobalDebug)
 	prog.Build()
 	w.Prog = prog
 	for f := range ssautil.AllFunctions(prog) {
